@@ -386,7 +386,7 @@ def convert_resizenn_ac_to_depthwise_conv(op, upscale_factor):
         weight_quant.quant_min = -(1 << (ofm_dtype.bits - 1))
         weight_quant.quant_max = (1 << (ofm_dtype.bits - 1)) - 1
 
-    weight_shape = [upscale_factor, upscale_factor, output_depth, output_depth]  # HWIO
+    weight_shape = [upscale_factor, upscale_factor, 1, output_depth]  # HWIO (depthwise: one filter per channel)
 
     # the single non-zero coefficient used to select the desired value needs to be placed in the 'centre value', which
     # is calculated by finding the 'centre position' ('*' in the diagram below) and then choosing the 'value' that is
@@ -406,7 +406,8 @@ def convert_resizenn_ac_to_depthwise_conv(op, upscale_factor):
             "weights",
             weight_shape,
             ofm_dtype,
-            np.array(weight_values).reshape(weight_shape),
+            # every channel uses the same selection kernel
+            np.tile(np.array(weight_values).reshape(upscale_factor, upscale_factor, 1, 1), (1, 1, 1, output_depth)),
             quantization=weight_quant,
         ),
         1,  # inputs tensor weight index
